@@ -24,6 +24,7 @@ from .parser import DefaultFormulaParser
 from .parser.types import FormulaParser, OrderedSet, Term
 from .utils.calculus import differentiate_term
 from .utils.deprecations import deprecated
+from .utils.layered_mapping import LayeredMapping
 from .utils.structured import Structured
 from .utils.variables import Variable, get_expression_variables
 
@@ -538,6 +539,13 @@ class SimpleFormula(
         evaluation context rather than the data context.
         """
 
+        # Constants like `contr` that are already present in the TRANSFORMS
+        # namespace are filtered out. (A quoted name may contain dots, and is
+        # then looked up whole: `log.x` is not an attribute of `log`.)
+        from formulaic.transforms import TRANSFORMS
+
+        transforms = LayeredMapping(TRANSFORMS, name="transforms")
+
         variables: list[Variable] = [
             variable
             for term in self.__terms
@@ -545,23 +553,20 @@ class SimpleFormula(
             for variable in (
                 # A looked-up name is its own variable, whether or not it is a
                 # valid Python expression (e.g. "`my column`").
-                [Variable(factor.expr, roles=["value"])]
+                [
+                    Variable(
+                        factor.expr,
+                        roles=["value"],
+                        source=transforms.get_layer_name_for_key(factor.expr),
+                    )
+                ]
                 if factor.eval_method.value == "lookup"
-                else get_expression_variables(factor.expr, {})
+                else get_expression_variables(factor.expr, transforms)
             )
-            if "value" in variable.roles
+            if "value" in variable.roles and variable.source is None
         ]
 
-        # Filter out constants like `contr` that are already present in the
-        # TRANSFORMS namespace.
-        from formulaic.transforms import TRANSFORMS
-
-        return set(
-            filter(
-                lambda variable: variable.split(".", 1)[0] not in TRANSFORMS,
-                Variable.union(variables),
-            )
-        )
+        return Variable.union(variables)
 
     def __repr__(self) -> str:
         return " + ".join([str(t) for t in self.__terms])
